@@ -208,7 +208,7 @@ def run(tier, seed):
                 res.records.append(r)
     res.jobs.extend(rjobs)
     # ---------------- (c) API closure ----------------
-    api_cfg_names = ['none', 'SSE2', 'SSE4_1', 'AVX2', 'F', 'F+BW', 'F+VL+BW+DQ+CD', 'ALL'] if tier == 'quick' else None
+    api_cfg_names = ['none', 'SSE2', 'SSE4_1', 'AVX2', 'F', 'F+BW', 'F+VL', 'F+VL+BW', 'F+DQ', 'F+VL+CD', 'F+VL+BW+DQ+CD', 'ALL'] if tier == 'quick' else None
     api_cfgs = [configs.parse(n) for n in api_cfg_names] if api_cfg_names else [c for c in configs.thorough_lattice()]
     ajobs = []
     for i, c in enumerate(api_cfgs):
